@@ -16,6 +16,11 @@ ENGINES = {
     "vh-ws": {"path": "harness/ws", "kind": "real http::WebSocket driven by vsched scripts; protocol trace automaton"},
     "vh-integ": {"path": "harness/integ", "kind": "in-memory GET/POST requests through the five web-framework integrations; resolver event log monitor"},
     "vh-dynck": {"path": "harness/dynck", "kind": "dynamic-schema build oracle (own validator) and work-counter monitor (verif-hooks)"},
+    "vh-scalars": {"path": "harness/scalars", "kind": "in-process domain models for scalars, validators, serde round trip, cursors; real schema.execute for validators and connections"},
+    "vh-net": {"path": "harness/net", "kind": "own encoders (JSON, query string, multipart) + decode monitors; RFC 2046 reader; HTML/JS evaluator for the GraphiQL page; vsched for batch order and multipart/mixed interleavings"},
+    "vh-conc": {"path": "harness/conc", "kind": "DataLoader under vsched (Spawn, Timer and Loader owned by the schedule), offline history checker; real-thread mode; Miri supplement"},
+    "vh-crash": {"path": "harness/crash", "kind": "process-level crash monitor: parent generates hostile inputs, children run them on 2 MiB stacks; panics, aborts and stalls are observed from outside"},
+    "vh-parse": {"path": "harness/parse", "kind": "independent hand-written GraphQL parser R2 (harness/r2) + token-position printer; three-way agreement and position monitors"},
     "vh-gate": {"path": "harness/gate", "kind": "introspection-mode matrix, secret-sentinel scanner over logged text, persisted-query store model"},
 }
 
@@ -42,14 +47,46 @@ PROPS = {
               "(pairs exhaustively for small trees, sampled otherwise) in static and dynamic schemas; data, error paths, locations and once-only "
               "reporting are compared with R1.", _R1 + " Static Rust resolvers cannot yield nothing for a non-null type; that kind is injected in dynamic schemas only.",
               level="fault_enumeration"),
+    "C04": _p("vh-exec", "offline trace checker over the resolver event log under vsched-controlled completion orders",
+              "Exploration: generated queries/mutations on S1 and dynamic schemas with every resolver gated; FIFO, LIFO (later root fields first) and random "
+              "orders; the log checker asserts one resolver start per response path and strictly serial mutation root fields.",
+              "A resolver start is observable as a Start event logged before the resolver awaits its gate; schedules are sampled, not enumerated."),
+    "C05": _p("vh-exec", "metamorphic monitor across all completion orders enumerated by vsched DFS",
+              "Exploration: for each generated query with 0-2 injected failures, ALL completion orders are enumerated by DFS (capped, then LIFO/random); "
+              "every order must give the same data and the same error multiset.",
+              "Resolvers are deterministic by construction (data world); the per-case cap on schedules is reported in evidence."),
+    "C07": _p("vh-scalars", "domain-model oracle over the real parse/to_value of every built-in scalar",
+              "Exploration, exhaustive for 8/16-bit integers and NonZero forms: millions of values of every GraphQL kind offered to each built-in scalar; "
+              "accept/reject and round trip compared with an arithmetic domain model.",
+              "One-sided where the intended answer is genuinely ambiguous (integral float for an integer type, double beyond f32 range); listed in evidence assumptions."),
+    "C08": _p("vh-scalars", "exact-arithmetic predicate oracle + resolver event log behind real schema.execute",
+              "Exploration: 50 validated argument fields and an input object, Strict and Fast modes, literals and variables, values at/below/above every bound; "
+              "the resolver runs iff the exact predicate holds, otherwise the request errors.",
+              "regex crate trusted on the oracle side; multiple_of(0) excluded (intent unclear, pinned by a repo unit test)."),
+    "C12": _p("vh-crash", "process-level monitor (panic hook, exit signal, progress watchdog) over hostile inputs on 8 client-controlled surfaces",
+              "Exploration: 20k (quick) / >1M (thorough) hostile inputs (grammar-aware and byte-level mutations, deep nesting, forged markers, truncated bodies, "
+              "WebSocket frames) executed in child processes on 2 MiB stacks; any panic, abnormal exit or repeated stall is a violation.",
+              "Oracle is process-level only; content of error responses is not judged; exponential-validation families are left to C11."),
     "C11": _p("vh-dynck", "work-counter hook (verif-hooks) read around real request checking; bound K*S^2+K0",
               "Exploration with an invariant counter: adversarial and random document families of growing size are checked by the real crate while the "
               "verif-hooks work counter is read; counted work must stay below 64*S^2+10000 (clean families stay 84x below).",
               "Counts selections visited by validation visitors, the two schema.rs walkers and FindConflicts; parser work is not counted. Bound constants are the harness' choice."),
+    "C13": _p("vh-parse", "three-way agreement monitor: generator AST = independent parser R2 = crate parser; R2 decides near-miss mutants",
+              "Exploration: 20k documents + 80k near-miss mutants (quick), 3M + 12M (thorough), executable and type-system, with ignored-token noise; "
+              "accept/reject and the denoted tree are compared with an independent recursive-descent parser.",
+              "R2 (harness/r2, Oct-2021 grammar) is trusted where it is asserted; edition-dependent constructs are not asserted (listed in evidence assumptions)."),
+    "C14": _p("vh-parse", "token-table position oracle for AST nodes; metamorphic (plain vs hostile layout) monitor for error positions",
+              "Exploration: every Positioned node of the crate's tree is compared with the printer's token table (line terminators LF/CRLF/CR, BOM, tabs, "
+              "comments, non-ASCII); parser error positions must map to the same token under a hostile re-layout.",
+              "Validation/execution error locations are covered by the executor checks (C03) for LF layouts only."),
     "C15": _p("vh-lang", "runtime round-trip monitor over generated values (print->parse, JSON->value)",
               "Exploration: tens of thousands (quick) to millions (thorough) of generated values are pushed through the real Display printer + parser "
               "and the JSON conversions; a strict-equality monitor compares what comes back.",
               "Trusts serde_json on the oracle side and the harness' strict equality; Binary is excluded as it is not a GraphQL value."),
+    "C16": _p("vh-scalars", "round-trip monitor over a generated family of serde types",
+              "Exploration: a 22-variant recursive type family covering every serde data-model shape, nested to depth 4, random values; "
+              "from_value(to_value(x)) must equal x.",
+              "char, i128/u128, non-finite floats and Option<Option<T>> are outside the stated model and only exercised one-sidedly."),
     "C19": _p("vh-gate", "resolver event log + response scanner over the full 3x3 mode matrix",
               "Exploration, exhaustive over the 54-cell (schema mode x request mode x flavour x operation kind) matrix, random over documents: "
               "metadata sentinels must be absent when disabled, the resolver log must be empty under introspection-only, __typename must resolve.",
@@ -57,18 +94,46 @@ PROPS = {
     "C21": _p("vh-gate", "sentinel scanner over the text the real Logger / Tracing / stringify_execute_doc produce",
               "Exploration: generated documents place unique sentinels in every secret position; the monitor scans the real logged text at three observation points.",
               "A leak is a substring match of a sentinel placed in a secret position; non-secret sentinels are counted to show the monitor sees real text."),
+    "C23": _p("vh-net", "decode-equivalence monitor over own encoders; vsched-controlled batch completion orders",
+              "Exploration: random logical requests encoded as JSON body, batch element, GET query string and multipart operations must decode alike; "
+              "17 malformed classes must be rejected; execute_batch keeps order under every completion order (DFS for n<=5).",
+              "The harness' encoders define what a well-formed encoding is; ambiguous malformed classes are counted, not judged."),
+    "C24": _p("vh-net", "binding-model oracle over own multipart encoder; end-to-end resolver read",
+              "Exploration: generated multipart bodies (field permutations, several paths per file, batch paths, missing/extra files, sizes and counts around "
+              "the limits) decoded by the real crate; bindings, limits and what a mutation resolver reads are compared with the model.",
+              "Per-field size limit applying to operations/map parts is reported, not judged."),
+    "C26": _p("vh-net", "independent RFC 2046 reader over the bytes of create_multipart_mixed_stream under vsched interleavings",
+              "Exploration, exhaustive over all interleavings of <=4 responses, <=4 heartbeat ticks and end-of-stream (DFS), random beyond; "
+              "framing, order, exactly-once, heartbeats and the closing delimiter are judged by an independent reader.",
+              "select!'s internal RNG makes simultaneously-ready cases sampled rather than enumerated."),
     "C25": _p("vh-ws", "trace automaton over client-in/server-out of the real WebSocket stream under vsched-controlled scripts",
               "Exploration, bounded-exhaustive over client/environment scripts (length <= 5 quick, <= 7 thorough, per protocol and init mode) plus random "
               "scripts up to length 40; every server message is judged by a protocol automaton written from the two PROTOCOL.md documents.",
               "One gate opens per step (two environment events cannot fall into one poll); legacy protocol defines no close codes, so any refusal is accepted there."),
+    "C28": _p("vh-conc", "offline history checker (rules D1-D6) over DataLoader runs whose Spawn, Timer and Loader are owned by vsched",
+              "Exploration, exhaustive DFS over all interleavings for <=3 requests over 3 keys x batch sizes 1-3 x cache modes x fault plans x cancellations; "
+              "random walks up to 12 requests; thorough adds a real-thread mode and a Miri run over the scc paths.",
+              "Values carry batch ids so provenance is unambiguous; real-thread histories use the relaxed cache reading; Miri is supplementary."),
+    "C29": _p("vh-conc", "reference cache model (NoCache/HashMap/LRU) over sequential operation histories",
+              "Exploration: random histories (<=40 ops, <=5 keys, one or two key types) of load/feed/clear/enable/get_cached_values compared with a reference "
+              "cache model; panics are violations.",
+              "Where the insertion order inside one batch is unspecified the model keeps the set of possible LRU states."),
     "C31": _p("vh-gate", "reference store model over request histories; resolver log shows which text ran",
               "Exploration: random request histories against the real ApolloPersistedQueries extension with LRU and harness stores; executed tags, lookups and "
               "store contents are compared with a reference model after every request.",
               "sha2 on the oracle side; LRU eviction never triggers at these capacities (scc rounds capacity up), stated in evidence."),
+    "C32": _p("vh-scalars", "round-trip and closure-call monitor over all CursorType impls and connection::query_with",
+              "Exploration: all 20 cursor types incl. OpaqueCursor over nested serde values, hostile cursor strings, 140+ pagination argument classes, "
+              "executed connection fields; page info cursors must equal the encodings of first/last edges.",
+              "A NaN cursor need only come back as a NaN (its text form cannot carry the payload)."),
     "C33": _p("vh-dynck", "independent type-system validator as oracle for SchemaBuilder::finish(); panic monitor on built schemas",
               "Exploration: random valid type systems and 142 single-rule violation/valid-variant operators; finish() must succeed iff the harness validator "
               "(listed rules only) accepts; every built schema is introspected, exported and queried under a panic monitor.",
               "Only the rules listed in the property are judged; systems violating other spec rules are never generated."),
+    "C34": _p("vh-net", "own HTML tokenizer + ECMA-262 string-literal evaluator over the generated page (cross-checked with node when present)",
+              "Exploration: random configuration strings (quotes, ampersands, angle brackets, backslashes, line terminators, </script>, non-ASCII) rendered by "
+              "GraphiQLSource; each configured site must evaluate to the configured value and no value may end its string/script/HTML context.",
+              "Script-data escaped states (<!--<script) are not modelled."),
     "C35": _p("vh-integ", "resolver event log behind in-memory GET requests through each integration's own entry point",
               "Exploration: ~165k (quick) generated GET requests through 11 entry points of axum, poem, actix-web, warp and rocket; any mutation-resolver event "
               "after a GET, or a GET mutation answered without errors, is a violation; POST/GET-query controls prove the monitor sees events.",
